@@ -101,6 +101,12 @@ func copyBlock(v reflect.Value, block Block) error {
 		vx := reflect.ValueOf(x)
 
 		if vx.Type().AssignableTo(blockType) {
+			if f.Type.Kind() != reflect.Struct {
+				return fmt.Errorf(
+					"type mismatch for the mapped field: struct.%s has %s, block.%s is a block",
+					f.Name, f.Type, name,
+				)
+			}
 			return copyBlock(v.Field(namei), x.(Block))
 		}
 
